@@ -27,11 +27,13 @@ Definition sort_edges (l : list (list Z)) : list (list Z) := sort_by lexz_le l.
 (* ---- what is pickled and hashed ------------------------------------------------ *)
 Inductive fpr :=
 | FpA (ins : list (list ix)) (out : list ix) (sz : list (ix * Z))
-| FpB (edges : list (list Z)) (sz : list (ix * Z)).
+| FpB (edges : list (list Z)) (sz : list (ix * Z))
+| FpB2 (ntensors : nat) (edges : list (list Z * Z)).     (* the repaired hash_contraction_b *)
 #[export] Instance Eqb_fpr : Eqb fpr := fun x y =>
   match x, y with
   | FpA i o s, FpA i' o' s' => eqb i i' && eqb o o' && eqb s s'
   | FpB e s, FpB e' s' => eqb e e' && eqb s s'
+  | FpB2 n e, FpB2 n' e' => eqb n n' && eqb e e'
   | _, _ => false
   end.
 
@@ -56,6 +58,16 @@ Definition edges_b (n : net) : edict :=
 Definition fp_b (n : net) : fpr :=
   FpB (sort_edges (map (fun e => sortz (snd e)) (edges_b n))) (sort_items (szd n)).
 
+(* hash_contraction_b as repaired by proposed_fixes/C14_hash-b-collision.patch:
+   (len(inputs), sortedtuple((sortedtuple(nodes), size_dict[ix]) for ix, nodes in edges.items()))
+   -- the number of tensors is part of the fingerprint and every size travels with its edge *)
+Definition ez_le (a b : list Z * Z) : bool :=
+  (lexz_le (fst a) (fst b) && negb (list_eqb Z.eqb (fst a) (fst b)))
+  || (list_eqb Z.eqb (fst a) (fst b) && (snd a <=? snd b)%Z).
+Definition fp_b2 (n : net) : fpr :=
+  FpB2 (length (inputs n))
+       (sort_by ez_le (map (fun e => (sortz (snd e), zget (fst e) (szd n))) (edges_b n))).
+
 Definition fingerprint (method_b : bool) (n : net) : fpr := if method_b then fp_b n else fp_a n.
 
 (* ---- the cached record {path, score, sliced_inds} --------------------------------- *)
@@ -64,7 +76,11 @@ Record con := mkCon { c_path : list (nat * nat); c_score : Z; c_sliced : list ix
   eqb (c_path a) (c_path b) && eqb (c_score a) (c_score b) && eqb (c_sliced a) (c_sliced b).
 
 Inductive ovw := OvFalse | OvTrue | OvImproved.
-Record cfg := mkCfg { method_b : bool; split : bool; overwrite : ovw; cache_only : bool }.
+(* b_fixed selects the model variant of hash_method='b' (as it stands / repaired); the harness
+   decides it from the behaviour of the code under test *)
+Record cfg := mkCfg { method_b : bool; split : bool; overwrite : ovw; cache_only : bool; b_fixed : bool }.
+Definition fingerprint_c (c : cfg) (n : net) : fpr :=
+  if method_b c then (if b_fixed c then fp_b2 n else fp_b n) else fp_a n.
 
 Section Machine.
 Variable H : fpr -> name.                 (* hashlib.sha1(pickle.dumps(.)).hexdigest() *)
@@ -73,7 +89,7 @@ Variable orc : nat -> net -> con.         (* the i-th run of the sub-optimizer *
 
 (* hash_query: h, or (h[:2], h[2:]) with directory_split *)
 Definition key_of (c : cfg) (q : net) : dkey :=
-  let h := H (fingerprint (method_b c) q) in
+  let h := H (fingerprint_c c q) in
   if split c then KT [firstn 2 h; skipn 2 h] else KS h.
 
 Definition pstate := (dd con * nat)%type.     (* the cache, number of searches so far *)
@@ -234,7 +250,7 @@ Fixpoint run_history (dirflag : bool) (f : fs) (ns : nat) (ss : list (bool * (cf
   match ss with
   | [] => []
   | (auto, (c, qs)) :: ss' =>
-      let c' := if auto then mkCfg (method_b c) (split_auto f) (overwrite c) (cache_only c) else c in
+      let c' := if auto then mkCfg (method_b c) (split_auto f) (overwrite c) (cache_only c) (b_fixed c) else c in
       let '(os, (d, ns')) := run_queries_obs c' (mkDD [] dirflag f, ns) qs in
       os :: run_history dirflag (if dirflag then dd_fs d else f) ns' ss'
   end.
